@@ -48,7 +48,21 @@ var byteWordRe = regexp.MustCompile(`\bbyte\b`)
 
 // typeStr prints a type with short package qualifiers; the alias byte is printed as uint8 so that
 // heap names do not depend on how a declaration happens to spell the type.
-func typeStr(t types.Type) string { return normType(types.TypeString(t, qual)) }
+func typeStr(t types.Type) string {
+	s := normType(types.TypeString(t, qual))
+	// a named type declared inside a function (gencodec's local "callFrame0" in MarshalJSON and in UnmarshalJSON) is
+	// distinguished by the position of its declaration: two such types may share a name and differ in their fields
+	base := t
+	if p, ok := base.(*types.Pointer); ok {
+		base = p.Elem()
+	}
+	if n, ok := base.(*types.Named); ok {
+		if o := n.Obj(); o != nil && o.Pkg() != nil && o.Parent() != nil && o.Parent() != o.Pkg().Scope() {
+			s += fmt.Sprintf("@%d", o.Pos())
+		}
+	}
+	return s
+}
 
 func normType(s string) string {
 	if strings.Contains(s, "byte") {
